@@ -16,18 +16,52 @@ COMPONENTS = {
     'reference': ['sim/ref_format.py', 'sim/history.py model'],
 }
 ASSUMPTIONS = ['the chunk and snapshot areas contain only objects written by replicat', 'destructive commands run alone']
-PROBES = ['delete', 'clean', 'crashed_snapshot', 'foreign_delete_shared', 'foreign_delete_independent']
+PROBES = ['ten_thousand_orphans', 'delete', 'clean', 'crashed_snapshot', 'foreign_delete_shared', 'foreign_delete_independent']
 TIERS = {'quick': {'budget_s': 70, 'batch': 10}, 'thorough': {'budget_s': 900, 'batch': 20}}
 ORACLES = ('store', 'confined', 'gc', 'journal')
 
 
 def gen_case(seed, tier):
+    from sim.core import substream
+    case = _gen_case(seed, tier)
+    if substream(seed, 'c08-many').random() < 0.006:
+        # a clean that has more than 10 000 objects to list and delete (listing pages, batches, windows of in-flight deletions)
+        case['many_orphans'] = 10_000 + substream(seed, 'c08-many2').randrange(1, 300)
+        case['ops'] = [{'op': 'clean', 'u': 0}] + [o for o in case['ops'] if o['op'] != 'par'][:3]
+        case['lat_kind'], case['backend'], case['live'], case['shared_object'] = 'zero', None, [], False
+        case['flavour'] = 'sync' if substream(seed, 'c08-many4').random() < 0.25 else 'async'     # (the plain flavour costs ~25 s per case)
+        case['opts'] = dict(case['opts'], step_cap=6_000_000, preempt_p=0.0)
+        case['list_page'] = substream(seed, 'c08-many3').choice([None, 1000, 10_000])
+    return case
+
+
+def _gen_case(seed, tier):
     return history.gen_history(seed, 'c08', max_users=4 if tier == 'thorough' else 3, nops=(3, 24) if tier == 'thorough' else (3, 10), destructive=True, crash_snapshots=True, decoys=True,
                                foreign_delete=True, reads=False, many=0.08, services=True)
 
 
+def _plant_orphans(H):
+    """More unreferenced chunk objects of user 0's key family than any batch or page size in sight."""
+    from sim.core import substream
+    rng = substream(H.case['sched_seed'], 'orphans')
+    ref = H.refs[0]
+    n = H.case['many_orphans']
+    dlen = len(ref.hash(b''))
+    for _ in range(n):
+        loc = ref.chunk_location(rng.randbytes(dlen))
+        if H.universe is not None:
+            H.universe.put_raw(loc, b'x')
+        else:
+            H.W.state.objects[loc] = b'x'
+    H.orphans_possible = True
+    H.probe('ten_thousand_orphans')
+
+
 def run_case(case):
-    return history.History(case, 'c08', ORACLES).run()
+    H = history.History(case, 'c08', ORACLES)
+    if case.get('many_orphans'):
+        H.post_setup = _plant_orphans
+    return H.run()
 
 
 def shrink(case):
